@@ -123,6 +123,15 @@ def search(ctx):
               "1.7976931348623158e308", "1.7976931348623159e308", "3.4028235677973366e38f", "1.00000005960464478f",
               "9007199254740993.0", "9007199254740993.0f", "16777217.0f", "1e400", "1e-400", "1.#INF", "0.#INF"]:
         add(t)
+    # one numeral, one token: every shape of the exponent part and the suffix on short digit strings
+    for whole in ["0", "1", "25"]:
+        for frac in ["", ".", ".5"]:
+            for ex in ["", "e5", "E5", "e+2", "E+2", "e-2", "E-2"]:
+                if frac == "" and ex == "":
+                    continue
+                for sfx in ["", "f", "F", "h", "H", "l", "L"]:
+                    for dl in ["", ";"]:
+                        out.append("C10.num\t%s\td%s" % ((whole + frac + ex + sfx).encode().hex(), dl.encode().hex()))
     # printing: every arm of format_literal / generate_literal on both generators
     lits = ["0", "7", "0x10", "017", "4294967295u", "1u", "0.5", "0.5f", "0.5h", "0.5L", "2.0", "2.0f", "2.0h", "2.0L",
             "1e30", "1e30f", "1e30h", "1e30L", "0.0", "0.0f", "1.#INF", "1.#INFf", "1.#INFh", "1.#INFL",
@@ -140,12 +149,13 @@ def search(ctx):
 SPEC = {
     "id": "C10",
     "gens": ["LexTables", "LitFormatTables", "SourceMapTables"],
-    "lean_modules": ["RsslVerif.Thm.C10"],
+    "lean_modules": ["RsslVerif.Thm.C10", "RsslVerif.Lemmas.LexNumeral"],
     "theorems": [T + n for n in [
         "token_progress", "token_error_in_input", "token_no_panic", "spans_tile", "reemit_reproduces_input",
         "error_pos_in_range", "tokens_before_error_tile", "lexing_terminates", "read_never_panics",
         "literalIntWith_closed", "int_value_exact", "int_overflow_rejected", "int_rejected_only_when_too_large",
-        "literalInt_radix", "token_numeric_dispatch", "float_parts_shape_as_modelled", "lex_float_nearest", "nearest64_total", "nearest64_correct", "nearest64_zero",
+        "literalInt_radix", "token_numeric_dispatch", "numeric_dispatch_as_modelled", "numeral_is_one_token", "numeral_first_token_span",
+        "float_parts_shape_as_modelled", "lex_float_nearest", "nearest64_total", "nearest64_correct", "nearest64_zero",
         "nearest_correct_partial", "nearest_correct", "nearest_monotone", "nearest64_monotone",
         "nearest_exact_on_representable",
         "literal_tables_as_modelled", "msl_double_literal_rejected", "emit_int_exact", "emit_value_exact", "emit_whole_value_exact",
